@@ -19,10 +19,18 @@ using semantic::CstType;
 using semantic::RSForm;
 using JSON = nlohmann::ordered_json;
 
+// Stub of the external inflector. limit > 0: only the first `limit` code points of the inflected text are kept, which bounds
+// the growth of mutually referencing terms (see known finding KF-C04-1); limit == 0: unbounded, as a plain inflector would behave.
 struct SimTextProc final : lang::TextProcessor {
   bool faultEmpty{ false };
-  std::string Inflect(const std::string& target, const lang::Morphology& form) const override { return faultEmpty ? std::string{} : target + "~" + form.ToString(); }
-  std::string InflectDependant(const std::string& dependant, const std::string& main) const override { return faultEmpty ? std::string{} : dependant + "^" + main; }
+  size_t limit{ 0 };
+  std::string Cut(const std::string& t) const {
+    if (limit == 0) return t;
+    size_t i = 0, n = 0; while (i < t.size() && n < limit) { const unsigned char c = static_cast<unsigned char>(t[i]); i += c < 0x80 ? 1 : (c & 0x20) == 0 ? 2 : (c & 0x10) == 0 ? 3 : 4; ++n; }
+    return t.substr(0, std::min(i, t.size()));
+  }
+  std::string Inflect(const std::string& target, const lang::Morphology& form) const override { return faultEmpty ? std::string{} : Cut(target) + "~" + form.ToString(); }
+  std::string InflectDependant(const std::string& dependant, const std::string& main) const override { return faultEmpty ? std::string{} : Cut(dependant) + "^" + Cut(main); }
 };
 inline SimTextProc* InstallTextProc() { auto p = std::make_unique<SimTextProc>(); auto* raw = p.get(); lang::TextEnvironment::SetProcessor(std::move(p)); lang::TextEnvironment::Instance().skipResolving = false; return raw; }
 inline void RemoveTextProc() { lang::TextEnvironment::SetProcessor(std::make_unique<lang::TextProcessor>()); lang::TextEnvironment::Instance().skipResolving = false; }
